@@ -104,6 +104,11 @@ type Interp struct {
 	nsym     int
 
 	MaxMapPerm int // max entries of a map that may be ranged with symbolic order
+	// MapOrderPolicies > 0: instead of all permutations per range, one of this many
+	// global iteration-order policies is chosen per path
+	MapOrderPolicies int
+	orderPolicy      int
+	deviated         bool
 
 	// statistics
 	Stats struct {
@@ -131,6 +136,8 @@ type Interp struct {
 	NoRuneProvenance bool
 	NoByteEnum       bool
 	stubMemo         map[string]Str
+	fs               *fsState
+	parsed           []parsedFile
 	allowFn          map[string]bool // functions of unmodelled packages that may be interpreted
 }
 
@@ -461,6 +468,22 @@ func (ip *Interp) call(caller *frame, fn Value, args []Value) Value {
 	panic(unsupported(fmt.Sprintf("call of %T", fn)))
 }
 
+func stripTypeArgs(s string) string {
+	var sb strings.Builder
+	depth := 0
+	for _, r := range s {
+		switch {
+		case r == '[':
+			depth++
+		case r == ']':
+			depth--
+		case depth == 0:
+			sb.WriteRune(r)
+		}
+	}
+	return sb.String()
+}
+
 func fnKey(f *ssa.Function) string {
 	// Instantiations print as "pkg.F[T]" — intrinsics are keyed on the origin too.
 	return f.String()
@@ -474,9 +497,11 @@ func (ip *Interp) callSSA(caller *frame, fn *ssa.Function, args []Value, env []V
 		}
 		return in(ip, caller, args)
 	}
-	if o := fn.Origin(); o != nil {
-		if in, ok := ip.intrinsics[fnKey(o)]; ok {
-			ip.Used[fnKey(o)] = "intrinsic"
+	if strings.Contains(name, "[") {
+		// generic instantiation: intrinsics are keyed on the name without type arguments
+		gk := stripTypeArgs(name)
+		if in, ok := ip.intrinsics[gk]; ok {
+			ip.Used[gk] = "intrinsic"
 			return in(ip, caller, args)
 		}
 	}
